@@ -34,6 +34,11 @@ def run(ck):
         tp = os.path.join(ck.dir, "v-docs.ndjson")
         deaths = vlib.run_executions(exe, lambda st: args + [st, n], n, tp, timeout=1200)
         vlib.conformance(ck, name, "TraceTokGrammar", "trace.cfg", tp, deaths, diag_of, min_events=n, timeout=1800, split_every=100)
+    # the number lattice (fraction length x significant digits, exponent x mantissa digits, long integer parts)
+    tp = os.path.join(ck.dir, "v-num.ndjson")
+    deaths = vlib.run_executions(exe, lambda st: ["tok", "valid-numbers", 12 if thorough else 1], 1, tp, timeout=1200)
+    vlib.conformance(ck, "G:number-lattice", "TraceTokGrammar", "trace.cfg", tp, deaths, diag_of, min_events=100, timeout=1800,
+                     split_every=20)
     tp = os.path.join(ck.dir, "v-esc.ndjson")
     deaths = vlib.run_executions(exe, lambda st: ["tok", "valid-escapes", vlib.SEED % stride, 65536, stride], 1, tp, timeout=1200)
     vlib.conformance(ck, "G:single-escape-enumeration(stride %d)" % stride, "TraceTokGrammar", "trace.cfg", tp, deaths, diag_of,
